@@ -222,7 +222,7 @@ def run(prop: str, tier: str) -> int:
         for kind in KINDS:
             for fe in (1, 3, 10):
                 cases.append(one_kind(kind, 40, fe))
-        n = 24 if tier == "quick" else 200
+        n = 24 if tier == "quick" else 500
         for k in range(n):
             cases.append(long_history(rng, rng.choice([100, 150, 250] if tier == "quick" else [150, 300, 400]), rng.choice([1, 3, 10])))
         with ProcessPoolExecutor(max_workers=C.ncpu()) as pool:
